@@ -78,6 +78,7 @@ def _triggers(base, rec0):
             # the target only counts at a feasible point: make the constraints feasible there too
             dev_f = dev + [[c["fid"], c["k"], ["feasible", 0]] for c in conc]
             yield kind, "target", dev_f
+            yield kind, "target-exact", [["obj", objc[0]["k"], "target_eq"]] + dev_f[1:]
             if cbk:
                 yield kind, "target+cb", dev_f + [["cb", cbk[0]["k"], "stop"]]
             if conc:
